@@ -89,6 +89,10 @@ func C20(seed int64, n int) (*cq.Set, *cq.Interner) {
 	in := cq.NewInterner()
 	set := &cq.Set{Stream: "c20", Seed: seed, Imports: "Model.Api Model.Pod Model.Checks Corr.C20", CaseTy: "c20_case", RunFn: "run_c20",
 		Rule: "every file under test/testdata (exhaustive), decoded strictly, API-server volume defaulting applied, evaluated by the real evaluator at the fixture's level and version and by each control in force there; distinct by (level, version, file); non-trivial = fail fixtures and pass fixtures other than base pods"}
+	// the fixtures describe the evaluator with the user-namespace relaxation off; a process in which the
+	// switch was turned on and off again is in that state too
+	policy.RelaxPolicyForUserNamespacePods(true)
+	policy.RelaxPolicyForUserNamespacePods(false)
 	// the in-memory generators must describe the same pods whatever a caller did with earlier results:
 	// fetch everything, scribble on the pods the three exported getters hand out, fetch again
 	if before, err := gen.LoadGenerated(); err == nil {
